@@ -81,6 +81,7 @@ try:
     _part("C15B", _b.SPECS["C15B"])
     _part("C16B", _b.SPECS["C16B"])
     _part("C16S", _s.SPECS["C16S"])
+    _part("C18S", _s.SPECS["C18S"])
     # Vec/RawVec parts of C18 (reserve then push without moving, amortised growth) and C19 (capacity overflow):
     # the vec family's growth / bounds profiles with the capacity field compared against the RawVec model
     _part("C18V", _v.SPECS["C13"], profiles=[("growth", 900, 45), ("general", 300, 45), ("copy", 300, 40)], fields=["cap", "len", "res"],
@@ -102,8 +103,9 @@ try:
     SPECS["C16"] = dict(family="multi", level="proof", parts=["C16V", "C16S", "C16B", "C16A"],
                         lean_modules=["BumpVerif.Props.C16", "BumpVerif.Proofs.StrPanic", "BumpVerif.Props.C17", "BumpVerif.Props.C16A"],
                         drivers=["Driver.VecMain", "Driver.StrMain", "Driver.BoxMain", "Driver.Main"])
-    SPECS["C18"] = dict(family="multi", level="proof", parts=["C18A", "C18V"],
-                        lean_modules=["BumpVerif.Props.C18", "BumpVerif.Props.C13"], drivers=["Driver.Main", "Driver.VecMain"])
+    SPECS["C18"] = dict(family="multi", level="proof", parts=["C18A", "C18V", "C18S"],
+                        lean_modules=["BumpVerif.Props.C18", "BumpVerif.Props.C13", "BumpVerif.Props.C18Cap"],
+                        drivers=["Driver.Main", "Driver.VecMain", "Driver.StrMain"])
     SPECS["C19"] = dict(family="multi", level="proof", parts=["C19A", "C19V"],
                         lean_modules=["BumpVerif.Props.C19", "BumpVerif.Props.C13"], drivers=["Driver.Main", "Driver.VecMain"])
 except ImportError:
